@@ -170,6 +170,20 @@ func runSelftest(args []string) int {
 					failed = append(failed, "spec:"+s)
 				}
 			}
+			if ent != nil {
+				var allObs []*Obligation
+				for _, r := range results {
+					allObs = append(allObs, r.ctx.obligations...)
+				}
+				for _, ob := range sweepRenameFailures(ent, func(n string) bool { return generated[n] }, allObs) {
+					failed = append(failed, ob.Name)
+				}
+				for _, n := range ent.Sweep {
+					if !generated[n] {
+						delete(claimed, n) // vanished package-sweep names are not violations (see ledgerEntry.Sweep)
+					}
+				}
+			}
 			for n := range claimed {
 				if !generated[n] {
 					failed = append(failed, n+" (not generated)")
